@@ -1006,15 +1006,30 @@ func c09CorruptBytes(b []byte, st *c09Step) []byte {
 		return c09RandBytes(st.Seed, st.N)
 	case "rootless-document":
 		return []byte(c09Rootless[st.Variant%len(c09Rootless)])
-	case "keyinfo-cert-text", "retrieval-method":
+	case "keyinfo-cert-text", "retrieval-method", "encryptedkey-algorithm", "forged-assertion-first":
 		doc := etree.NewDocument()
 		if err := doc.ReadFromBytes(b); err != nil || doc.Root() == nil {
 			return b
 		}
 		var all []*etree.Element
 		c01All(doc.Root(), &all)
+		done := false
 		for _, e := range all {
 			switch {
+			case st.Op == "forged-assertion-first" && !done && e.Tag == "Assertion" && e.Parent() != nil && e.Parent().Tag == "Response":
+				// somebody puts assertions of his own making (copies without a signature, or with nothing in them) in front of the genuine
+				// one: whatever the verdict on the response is, it is a result or an error, not neither
+				done = true
+				for q, n := 0, 1+st.N%3; q < n; q++ {
+					f := e.Copy()
+					for _, c := range f.ChildElements() {
+						if c.Tag == "Signature" || (st.Variant%2 == 1 && c.Tag != "Issuer") {
+							f.RemoveChild(c)
+						}
+					}
+					f.CreateAttr("ID", fmt.Sprintf("id-forged-%d", q))
+					e.Parent().InsertChildAt(e.Index(), f)
+				}
 			case st.Op == "keyinfo-cert-text" && e.Tag == "X509Certificate" && e.Parent() != nil && e.Parent().Parent() != nil && e.Parent().Parent().Parent() != nil && e.Parent().Parent().Parent().Tag == "Signature":
 				// the certificate text inside a signature's KeyInfo (not signed content): armour lines, white space, garbage, nothing
 				own := strings.TrimSpace(e.Text())
@@ -1026,6 +1041,30 @@ func c09CorruptBytes(b []byte, st *c09Step) []byte {
 				e.SetText(texts[st.N%len(texts)])
 				if st.N%len(texts) == 9 {
 					e.CreateComment("c") // a second child node beside the text
+				}
+			case st.Op == "encryptedkey-algorithm" && e.Tag == "EncryptedKey":
+				// what the EncryptedKey says about how the key was wrapped is anybody's to write: a content-encryption algorithm,
+				// nothing, something unheard of; or the wrapped key is itself said to be wrapped (an EncryptedKey inside its KeyInfo)
+				algs := []string{"http://www.w3.org/2001/04/xmlenc#aes128-cbc", "http://www.w3.org/2001/04/xmlenc#aes256-cbc", "http://www.w3.org/2001/04/xmlenc#tripledes-cbc",
+					"http://www.w3.org/2009/xmlenc11#aes128-gcm", "", "urn:example:no-such-algorithm", "http://www.w3.org/2001/04/xmlenc#rsa-1_5", "http://www.w3.org/2001/04/xmlenc#kw-aes128", "@remove", "@nest"}
+				alg := algs[st.N%len(algs)]
+				em := e.FindElement("./EncryptionMethod")
+				switch {
+				case alg == "@nest":
+					ki := e.FindElement("./KeyInfo")
+					if ki == nil {
+						ki = etree.NewElement("ds:KeyInfo")
+						ki.CreateAttr("xmlns:ds", "http://www.w3.org/2000/09/xmldsig#")
+						e.InsertChildAt(0, ki)
+					}
+					inner := e.Copy()
+					ki.AddChild(inner)
+				case alg == "@remove":
+					if em != nil {
+						e.RemoveChild(em)
+					}
+				case em != nil:
+					em.CreateAttr("Algorithm", alg)
 				}
 			case st.Op == "retrieval-method" && e.Tag == "EncryptedData":
 				// the one-key-per-recipient layout: EncryptedKey beside EncryptedData, referenced from it by a RetrievalMethod URI
@@ -2403,7 +2442,7 @@ func genTotality(g *Rng, tier string) *Plan {
 			st.Layer = "xml"
 			switch st.Family {
 			case "response":
-				ops = append(ops, "keyinfo-cert-text", "keyinfo-cert-text", "keyinfo-cert-text", "retrieval-method", "retrieval-method", "retrieval-method", "strip-keyinfo", "strip-keyinfo", "strip-keyinfo", "cipher-algorithm", "cipher-algorithm", "cipher-algorithm", "cipher-algorithm", "cipher-algorithm", "ciphervalue-short", "ciphervalue-short", "ciphervalue-short", "ciphervalue-short", "encrypted-plaintext", "encrypted-plaintext", "encrypted-plaintext", "encrypted-plaintext")
+				ops = append(ops, "keyinfo-cert-text", "keyinfo-cert-text", "keyinfo-cert-text", "retrieval-method", "retrieval-method", "retrieval-method", "encryptedkey-algorithm", "encryptedkey-algorithm", "encryptedkey-algorithm", "forged-assertion-first", "forged-assertion-first", "forged-assertion-first", "strip-keyinfo", "strip-keyinfo", "strip-keyinfo", "cipher-algorithm", "cipher-algorithm", "cipher-algorithm", "cipher-algorithm", "cipher-algorithm", "ciphervalue-short", "ciphervalue-short", "ciphervalue-short", "ciphervalue-short", "encrypted-plaintext", "encrypted-plaintext", "encrypted-plaintext", "encrypted-plaintext")
 				if st.Entry == "ParseResponse/post" {
 					ops = append(ops, "b64-cut", "b64-pad", "b64-badchar")
 				}
@@ -2446,6 +2485,13 @@ func genTotality(g *Rng, tier string) *Plan {
 			case "retrieval-method":
 				st.Variant = g.Intn(2)
 				st.N = g.Intn(13)
+			case "encryptedkey-algorithm":
+				st.N = g.Intn(10)
+				st.Encrypt = true
+			case "forged-assertion-first":
+				st.N, st.Variant = g.Intn(3), g.Intn(2)
+				st.Encrypt = false
+				st.Layout = Pick(g, "A", "A", "RA", "R")
 			case "hostile-attribute":
 				st.Variant = g.Intn(len(c09HostileAttrs))
 				st.N = g.Intn(len(c09HostileValues) + 1)
@@ -2620,7 +2666,7 @@ func simplifyTotality(p *Plan) []*Plan {
 				with(i, func(s *c09Step) { s.Omit[j] = to })
 			}
 		}
-		if st.Kind == "corrupt" && !(st.Op == "rootless-document" && st.Layer == "xml") && st.Op != "ciphervalue-short" && st.Op != "encrypted-plaintext" && st.Op != "cipher-algorithm" && st.Op != "strip-keyinfo" && st.Op != "hostile-attribute" && st.Op != "keyinfo-cert-text" && st.Op != "retrieval-method" {
+		if st.Kind == "corrupt" && !(st.Op == "rootless-document" && st.Layer == "xml") && st.Op != "ciphervalue-short" && st.Op != "encrypted-plaintext" && st.Op != "cipher-algorithm" && st.Op != "strip-keyinfo" && st.Op != "hostile-attribute" && st.Op != "keyinfo-cert-text" && st.Op != "retrieval-method" && st.Op != "encryptedkey-algorithm" && st.Op != "forged-assertion-first" {
 			with(i, func(s *c09Step) {
 				s.Op, s.Layer, s.Variant, s.Pms, s.N, s.Pm = "rootless-document", "xml", 0, nil, 0, 0
 			})
@@ -2642,7 +2688,7 @@ func simplifyTotality(p *Plan) []*Plan {
 		if to, ok := c09CanonOmit[st.Entry]; ok && (st.Kind == "omit" || st.Op == "ciphervalue-short" || st.Op == "encrypted-plaintext" || st.Op == "cipher-algorithm") {
 			with(i, func(s *c09Step) { s.Entry = to })
 		}
-		if st.Encrypt && st.Op != "ciphervalue-short" && st.Op != "encrypted-plaintext" && st.Op != "cipher-algorithm" {
+		if st.Encrypt && st.Op != "ciphervalue-short" && st.Op != "encrypted-plaintext" && st.Op != "cipher-algorithm" && st.Op != "encryptedkey-algorithm" {
 			with(i, func(s *c09Step) { s.Encrypt = false })
 		}
 		if st.Layout != "R" && st.Layout != "" {
